@@ -66,7 +66,14 @@ for f in ("patch.diff", "demo.py", "meta.json"):
 st = sh(["git", "-C", "/repo", "status", "--porcelain", "--untracked-files=no"]).stdout.strip()
 if st:
     print("/repo not clean, not applying:", st[:200]); sys.exit(3)
-sh(["git", "-C", "/repo", "apply", os.path.join(dst, "patch.diff")])
+ap = sh(["git", "-C", "/repo", "apply", os.path.join(dst, "patch.diff")])
+if ap.returncode:
+    meta = json.load(open(os.path.join(dst, "meta.json")))
+    meta["kind"] = "neutral" if neutral else "breaking"
+    meta["applies_to_head"] = False
+    json.dump(meta, open(os.path.join(dst, "meta.json"), "w"), indent=1)
+    print("PATCH DOES NOT APPLY TO CURRENT /repo HEAD (the tree moved on):", ap.stderr.strip()[:200])
+    sys.exit(4)
 try:
     ids = [f"C{i:02d}" for i in range(1, 21)]
 
